@@ -37,7 +37,7 @@ for c in table.CONTROLS:
                 status = "BUILD-FAILED " + b.stderr.strip().splitlines()[-1][:160]
         if status is None:
             prop = rule.split("-")[0]
-            r = subprocess.run(["/verif/bin/kbcheck", "-prop", prop, "-tier", "quick", "-repo", d + "/repo", "-verif", d + "/verif", "-no-mutants"],
+            r = subprocess.run([os.environ.get("KBCHECK", "/verif/bin/kbcheck"), "-prop", prop, "-tier", "quick", "-repo", d + "/repo", "-verif", d + "/verif", "-no-mutants"],
                                env=env, capture_output=True, text=True)
             hits = [l for l in r.stdout.splitlines() if l.startswith("violated: rule=" + rule + " ")]
             others = sorted({l.split()[1] for l in r.stdout.splitlines() if l.startswith("violated: ")})
